@@ -25,8 +25,10 @@ def n_runs(tier):
 def gen_job(verif_seed, tier, index):
     job, st = jobgen.base_job(PROP, verif_seed, tier, index, PROFILE)
     g = st.gen
+    if g.random() < 0.12:
+        jobgen.add_list_order(job, g)          # before any coordinates are derived from the topology order
     r = g.random()
-    if r < 0.1 and len(job["spec"]["restypes"]) >= 2:
+    if r < 0.1 and len(job["spec"]["restypes"]) >= 2 and not job.get("list_order"):
         # kept residues in the middle of a rebuilt chain + step failures: rewinds pass over supplied residues
         if jobgen.make_interior_kept(job, g) and not job["tape"].get("step"):
             from simkit.core import draw_lane
